@@ -148,6 +148,9 @@ Proof.
   rewrite map_nth, seq_nth by lia. reflexivity.
 Qed.
 
+Lemma nth_map_default {B C} (f : B -> C) l i d db : (i < length l)%nat -> nth i (map f l) d = f (nth i l db).
+Proof. intros H. rewrite (nth_indep _ d (f db)) by (rewrite map_length; exact H). apply map_nth. Qed.
+
 Lemma assign_length (s : list R) idx x : length (@assign ROps s idx x) = length s.
 Proof. unfold assign. rewrite map_length, seq_length. reflexivity. Qed.
 Lemma assign_nth (s : list R) idx x t : (t < length s)%nat ->
@@ -1013,4 +1016,113 @@ Proof.
   - intros i Hi Hin. apply Hoff; [exact Hi|]. intros Hk. apply kept_of_In in Hk. tauto.
   - intros k Hk. unfold gradR. rewrite submat_row, gather_nth by exact Hk. f_equal.
     apply (reindex _ _ x idx n); auto. eapply row_length; eauto. apply Hlt. apply nth_In. exact Hk.
+Qed.
+
+(* ====================================================================== I. mapped reconstructed data *)
+Lemma fold_left_acc (f : nat -> R) : forall l a, fold_left (fun acc j => acc + f j) l a = a + sumR (map f l).
+Proof. induction l as [|x l IH]; intros a; cbn [fold_left map sumR]; [lra|]. rewrite IH. lra. Qed.
+
+Lemma mapped_row (r s : list R) : length r = length s ->
+  fold_left (fun acc j => add ROps acc (mul ROps (@nthT ROps s j) (@nthT ROps r j))) (seq 0 (length s)) (@zero ROps) = dotR r s.
+Proof.
+  intros H. cbn [add mul ROps]. unfold zero. cbn [ofZ ROps].
+  rewrite (fold_left_acc (fun j => nth j s 0 * nth j r 0)). rewrite dotR_seq by exact H.
+  rewrite Rplus_0_l. apply sumR_map_ext. intros j _. ring.
+Qed.
+
+Theorem mapped_is_matrix_vector (M : list (list R)) (s : list R) :
+  (forall r, In r M -> length r = length s) ->
+  @mapped_via_mapping_matrix ROps M s = map (fun r => dotR r s) M.
+Proof.
+  intros H. unfold mapped_via_mapping_matrix. apply map_ext_in. intros r Hr. apply mapped_row. apply H. exact Hr.
+Qed.
+
+Lemma dotR_app (a1 a2 b1 b2 : list R) : length a1 = length b1 -> dotR (a1 ++ a2) (b1 ++ b2) = dotR a1 b1 + dotR a2 b2.
+Proof.
+  revert b1. induction a1 as [|x a1 IH]; intros [|y b1] H; simpl in H; try discriminate.
+  - unfold dotR at 2. simpl. lra.
+  - cbn [app]. rewrite !dotR_cons, IH by lia. lra.
+Qed.
+
+Lemma vadd_length (a v : list R) : length a = length v -> length (@vadd ROps a v) = length a.
+Proof. intros H. unfold vadd. norm. rewrite map_length, combine_length. lia. Qed.
+Lemma vadd_nth (a v : list R) i : length a = length v -> nth i (@vadd ROps a v) 0 = nth i a 0 + nth i v 0.
+Proof.
+  intros H. unfold vadd. norm.
+  destruct (Nat.lt_ge_cases i (length a)) as [Hi|Hi].
+  - rewrite (nth_map_default _ _ i 0 (0, 0)) by (rewrite combine_length; lia).
+    rewrite combine_nth by exact H. reflexivity.
+  - rewrite !nth_overflow; [lra|lia|lia|rewrite map_length, combine_length; lia].
+Qed.
+
+(* shape of one (blurred) mapping matrix: npix rows, all of the width of the first *)
+Definition wfB (npix : nat) (B : list (list R)) : Prop :=
+  length B = npix /\ forall r, In r B -> length r = length (hd [] B).
+Definition widths (Bs : list (list (list R))) : list nat := map (fun B => length (hd [] B)) Bs.
+
+Lemma mapped_nth npix (B : list (list R)) (so : list R) i : wfB npix B -> length so = length (hd [] B) -> (i < npix)%nat ->
+  nth i (@mapped_via_mapping_matrix ROps B so) 0 = dotR (rowR B i) so.
+Proof.
+  intros [HB Hr] Hso Hi. rewrite mapped_is_matrix_vector by (intros r Hin; rewrite Hso; apply Hr; exact Hin).
+  rewrite (nth_indep _ 0 (dotR [] so)) by (rewrite map_length; lia).
+  exact (map_nth (fun r => dotR r so) B [] i).
+Qed.
+Lemma mapped_length (B : list (list R)) (so : list R) : length (@mapped_via_mapping_matrix ROps B so) = length B.
+Proof. unfold mapped_via_mapping_matrix. apply map_length. Qed.
+
+Lemma mapped_dict_cons (B : list (list R)) Bs (s : list R) :
+  @mapped_dict ROps (B :: Bs) s =
+  @mapped_via_mapping_matrix ROps B (firstn (length (hd [] B)) s) :: @mapped_dict ROps Bs (skipn (length (hd [] B)) s).
+Proof. reflexivity. Qed.
+
+Lemma per_object_acc npix : forall (Bs : list (list (list R))) (s acc : list R),
+  (forall B, In B Bs -> wfB npix B) -> length s = list_sum (widths Bs) -> length acc = npix ->
+  length (fold_left (@vadd ROps) (@mapped_dict ROps Bs s) acc) = npix /\
+  forall i, (i < npix)%nat ->
+    nth i (fold_left (@vadd ROps) (@mapped_dict ROps Bs s) acc) 0
+    = nth i acc 0 + dotR (flat_map (fun B => rowR B i) Bs) s.
+Proof.
+  induction Bs as [|B Bs IH]; intros s acc HB Hs Hacc.
+  - split; [exact Hacc|]. intros i Hi. cbn. unfold dotR. cbn. lra.
+  - rewrite mapped_dict_cons. cbn [fold_left].
+    set (p := length (hd [] B)) in *.
+    assert (Hs' : length s = (p + list_sum (widths Bs))%nat) by exact Hs. clear Hs. rename Hs' into Hs.
+    pose proof (HB B (or_introl eq_refl)) as HwB.
+    assert (Hf : length (firstn p s) = p) by (rewrite firstn_length, Hs; apply Nat.min_l; lia).
+    assert (Hk : length (skipn p s) = list_sum (widths Bs)) by (rewrite skipn_length; lia).
+    assert (Hv : length (@mapped_via_mapping_matrix ROps B (firstn p s)) = npix) by (rewrite mapped_length; apply HwB).
+    assert (Hacc' : length (@vadd ROps acc (@mapped_via_mapping_matrix ROps B (firstn p s))) = npix)
+      by (rewrite vadd_length; [exact Hacc|exact (eq_trans Hacc (eq_sym Hv))]).
+    destruct (IH (skipn p s) _ (fun B' H' => HB B' (or_intror H')) Hk Hacc') as [Hl Hn].
+    split; [exact Hl|]. intros i Hi. rewrite (Hn i Hi). rewrite vadd_nth by exact (eq_trans Hacc (eq_sym Hv)).
+    pose proof (mapped_nth npix B (firstn p s) i HwB Hf Hi) as Hm. norm. rewrite Hm.
+    cbn [flat_map]. rewrite <- (firstn_skipn p s) at 3. rewrite dotR_app; [lra|].
+    rewrite Hf. destruct HwB as [HlB HrB]. apply HrB. unfold row. apply nth_In. norm. rewrite HlB. exact Hi.
+Qed.
+
+Theorem per_object_data_sums npix (Bs : list (list (list R))) (s : list R) :
+  (forall B, In B Bs -> wfB npix B) -> length s = list_sum (widths Bs) ->
+  @mapped_total ROps npix (@mapped_dict ROps Bs s) = @hstack_dot ROps Bs s npix.
+Proof.
+  intros HB Hs. unfold mapped_total, hstack_dot.
+  destruct (per_object_acc npix Bs s (@zeros ROps npix) HB Hs (zeros_R_length npix)) as [Hl Hn].
+  apply (nth_ext _ _ 0 0); [rewrite map_length, seq_length; exact Hl|].
+  intros i Hi. norm. rewrite Hl in Hi. rewrite (Hn i Hi), nth_zeros_any, nth_map_seq by exact Hi.
+  rewrite dot_dotR. lra.
+Qed.
+
+(* each dictionary entry is that object's blurred mapping matrix times its slice of the reconstruction *)
+Theorem per_object_entry (Bs : list (list (list R))) (s : list R) :
+  @mapped_dict ROps Bs s = map (fun Bs_s => @mapped_via_mapping_matrix ROps (fst Bs_s) (snd Bs_s))
+                               (combine Bs (@split_by ROps (widths Bs) s)).
+Proof. reflexivity. Qed.
+
+Theorem split_by_concat : forall ps (s : list R), length s = list_sum ps ->
+  concat (@split_by ROps ps s) = s /\ map (@length R) (@split_by ROps ps s) = ps.
+Proof.
+  induction ps as [|p ps IH]; intros s H; cbn [split_by concat map].
+  - destruct s; [auto|discriminate].
+  - assert (H' : length s = (p + list_sum ps)%nat) by exact H.
+    assert (Hk : length (skipn p s) = list_sum ps) by (rewrite skipn_length; lia).
+    destruct (IH _ Hk) as [H1 H2]. norm. rewrite H1, H2, firstn_skipn, firstn_length. split; [reflexivity|]. f_equal. lia.
 Qed.
